@@ -29,7 +29,7 @@ TRUSTED = [
     "translate(): recognition of the pinned / repaired shape of the two `if` tests of get_subcommands that selects the model variant (a wrong recognition surfaces as model disagreements)",
 ]
 ASSUMPTIONS = [
-    "options are --k type=int with int defaults; config values are nested objects with int/str leaves (no explicit null, no lists)",
+    "options are --k type=int with int defaults; config values are nested objects with int/str leaves (no explicit null, no lists), keys unique at every level (json_ok, checked per case by the judge)",
     "no default_config_files, no subcommand aliases, no PREFIX_CFG environment variable, names are lower-case without '.' (one subcommand name, as_dict, has a '_')",
     "option names, subcommand names, dest and 'cfg' are pairwise different inside one parser (wf_parser)",
 ]
@@ -472,9 +472,13 @@ META = {
                   "subcommand with nothing given is rejected with the documented error. C17_command_line_name_wins and "
                   "C17_config_name_wins, C17_environment_name_wins (a parse_env mapping naming a declared subcommand) prove the explicit clauses of the selection rule at the top level: the token on the command "
                   "line wins whatever --cfg values/environment name, and the subcommand key of a parse_object/parse_string config wins "
-                  "whatever the environment names or which sections carry settings. C17_fixed_one_selected (+2 corollaries): with "
-                  "fixes/C17-falsy-subcommand-name-keeps-all-sections.patch the full statement holds without guard. The remaining "
-                  "clause (first declared subcommand with settings), the rule at nested levels and the VALUES inside the chosen "
+                  "whatever the environment names or which sections carry settings. C17_config_entry_selection_rule (round 6) proves the WHOLE "
+                  "rule at the top level for parse_object/parse_string, every tree, variant, environment and JSON object whose subcommand key is "
+                  "absent or a string: the stored choice IS Spec.select of the inputs - the config's key, else the declared name the environment "
+                  "gives, else the first DECLARED subcommand with a non-empty section in the config, else None (nothing else is ever chosen). "
+                  "C17_fixed_one_selected (+2 corollaries): with "
+                  "fixes/C17-falsy-subcommand-name-keeps-all-sections.patch the full statement holds without guard. The settings-given "
+                  "clause on the argv path (--cfg values), the rule at nested levels and the VALUES inside the chosen "
                   "sections (last given on this level, else environment, else default: Spec.spec_ok with select / values_ok evaluated "
                   "on the inputs), and ACCEPTANCE (Spec.must_succeed: when every source is clean - only declared options, names and "
                   "sections - and along the selected path every level has a determinable choice, from whatever mix of sources, or is "
@@ -486,14 +490,17 @@ META = {
                   "keeps all sections (guard dest_truthy, C17_falsy_name_refuted; fixed in /repo cc83855); a --cfg value naming another "
                   "subcommand drops given settings (judge class 2, C17_cfg_names_other_refuted; fixed in /repo efb952a); "
                   "parse_env(mapping) lets the sub-parsers read os.environ (judge class 3 = osenv_clean, "
-                  "C17_env_mapping_decoy_refuted; open, fixes/C17-env-mapping-ignored-by-handle-subcommands.patch). Not proved: Spec.select below the top "
-                  "level / for the settings-given clause, the values and must_succeed - exercised by the correspondence only. Failing "
+                  "C17_env_mapping_decoy_refuted; fixed in /repo bad2da5). Not proved: Spec.select below the top "
+                  "level and for --cfg values on the command line, the values and must_succeed - exercised by the correspondence only. Failing "
                   "parses are only compared as 'failed' (the error kind is not tied); a failure is a spec failure only under must_succeed "
                   "(a sufficient condition: unclean inputs demand nothing). Not modelled: default_config_files, aliases, explicit null, "
-                  "PREFIX_CFG variables, non-int options. Trusted: Coq kernel/VM, the model's faithfulness outside the generated cases, "
+                  "PREFIX_CFG variables, non-int options; two defects were seen by probe in that unmodelled space (notes/C17.md, round 6: a "
+                  "default config file without a choice on a parser with a required subcommand makes every parse fail; APP_CFG giving a.x "
+                  "together with APP_SUBCOMMAND=a loses a.x) and are NOT covered by any theorem or by the tie. Trusted: Coq kernel/VM, the model's faithfulness outside the generated cases, "
                   "the harness rendering of argv/JSON/environment, argparse tokenisation. No axioms.",
     "technique": "Rocq proof by induction on fuel over a Gallina model of the parse pipeline, parameterised by the tree variant "
                  "(pinned / repaired): invariants Handled -> Sel through handle_subcommands and the links pass, preservation of an "
-                 "explicit subcommand key through _parse_common; + seeded correspondence on generated parser trees judged in Coq "
+                 "explicit subcommand key through _parse_common, the implicit choice (first declared section) through get_subcommands/handle/links "
+                 "and a section-by-section characterisation of merge_config on JSON objects (unique keys); + seeded correspondence on generated parser trees judged in Coq "
                  "against the model and the executable selection-and-values spec",
 }
